@@ -17,6 +17,8 @@ pub mod c14;
 #[cfg(feature = "alloc")]
 pub mod c15;
 pub mod c13;
+#[cfg(feature = "alloc")]
+pub mod c13_input;
 pub mod c16;
 #[cfg(feature = "alloc")]
 pub mod c18;
@@ -77,7 +79,7 @@ pub fn run(prop: &str, ctx: &mut Ctx) -> bool {
         "C05" => { c05::run(ctx); c05_drv::run(ctx); }
         // C19 also covers the sound notification queue and the socket receive path (bytes delivered = bytes the packet holds)
         "C19" => { c19::run(ctx); c20_snd::run_notifications(ctx); c17::run_read_header(ctx); }
-        "C07" => { c07::run(ctx); c13::run_device_chosen(ctx); c07_drv::run(ctx); }
+        "C07" => { c07::run(ctx); c13::run_device_chosen(ctx); c13_input::run_device_chosen(ctx); c07_drv::run(ctx); }
         "C10" => c10::run(ctx),
         "C12" => c12::run(ctx),
         // C11 "every later operation accesses only those windows" includes device-configuration accesses (C13 bounds on PCI)
@@ -99,7 +101,7 @@ pub fn run(prop: &str, ctx: &mut Ctx) -> bool {
         }
         "C14" => c14::run(ctx),
         "C15" => c15::run(ctx),
-        "C13" => { c13::run(ctx); c11_hyp::run_config(ctx); }
+        "C13" => { c13::run(ctx); c11_hyp::run_config(ctx); c13_input::run(ctx); }
         "C16" => c16::run(ctx),
         "C18" => c18::run(ctx),
         "C17" => { c17::run(ctx); c18::run_multi(ctx); }
